@@ -25,7 +25,7 @@ pub fn def() -> PropDef {
     PropDef {
         id: "C16",
         level: "model_checking",
-        rule: "explicit-state search over a store holding 5 documents — three whose namespace ids are byte-order neighbours (..FE, ..FF, successor; populated through the raw-put hook with read-only capability) and two real-key documents — with events {write entry 1/2, delete prefix, register peer, set policy, open, close, remove, re-create, import the write capability (an upgrade for a document created read-only)} per document, from the empty and from a fully populated initial state; after every event every document's complete observable content is compared with a per-document reference, removal must be refused iff open, and content_hashes() must equal the hashes of all entries held; a second family spawns a real Engine with a garbage-collection protect handler and, after every step of three scripts (0..N writes, prefix deletions, duplicate contents, removals; N = 140 quick / 600 thorough, crossing every channel capacity on the way), calls the collector's callback and requires the live set it receives to equal the hashes held, and once more after the docs engine was shut down (the collector must then be stopped, not handed a smaller set); canonical state = rendering of the complete observable store content; non-trivial = histories containing a removal of a non-empty document",
+        rule: "explicit-state search over a store holding 5 documents — three whose namespace ids are byte-order neighbours (..FE, ..FF, successor; populated through the raw-put hook with read-only capability) and two real-key documents — with events {write entry 1/2, delete prefix, register peer, set policy, open, close, remove, re-create, import the write capability (an upgrade for a document created read-only)} per document, from the empty and from a fully populated initial state; after every event every document's complete observable content is compared with a per-document reference, removal must be refused iff open, and content_hashes() must equal the hashes of all entries held; a family drives the document life cycle through the docs API of a real Engine (every history of <= 3, thorough 4, events over {write, delete prefix, set policy, open one more handle, close, drop_doc, import again}: a dropped document is not listed, cannot be opened, comes back empty with the default policy, the bystander document is untouched); a further family spawns a real Engine with a garbage-collection protect handler and, after every step of three scripts (0..N writes, prefix deletions, duplicate contents, removals; N = 140 quick / 600 thorough, crossing every channel capacity on the way), calls the collector's callback and requires the live set it receives to equal the hashes held, and once more after the docs engine was shut down (the collector must then be stopped, not handed a smaller set); canonical state = rendering of the complete observable store content; non-trivial = histories containing a removal of a non-empty document",
         assumptions: &["entries of the neighbouring-id documents carry arbitrary signatures (written below the validation layer), which the properties observed here never inspect"],
         bound: |t| match t {
             Tier::Quick => json!({"from_empty": "depth <= 3", "from_populated": "depth <= 4", "events": 43}),
@@ -693,6 +693,7 @@ fn gc_run(name: &str, script: &[GcStep], report: &mut Report, ordinal: u64) -> (
 
 fn run(ctx: &Ctx, report: &mut Report) {
     crate::util::silence_panics();
+    super::apifam::run_life_family(ctx, report, "C16");
     let evs = events();
     report.fact("events", json!(evs.len()));
     for (family, pre) in [("empty", vec![]), ("populated", populate_events())] {
@@ -772,6 +773,9 @@ fn run(ctx: &Ctx, report: &mut Report) {
 }
 
 fn replay(case: &Value) -> anyhow::Result<(bool, String)> {
+    if let Some(r) = super::apifam::replay_life(case, "C16")? {
+        return Ok(r);
+    }
     if case["family"] == "gc_protect" {
         let name = case["script"].as_str().unwrap_or("");
         let upto = case["upto"].as_u64().unwrap_or(u64::MAX) as usize;
